@@ -126,6 +126,32 @@ def opdoc : Handler := fun req => do
   let branch := (if summary.isSome then "s" else "-") ++ (if description.isSome then "d" else "-")
   pure (Json.mkObj [("model", model), ("match", Json.bool (model == implCmp)), ("judge", judge), ("branch", Json.str branch)])
 
-def ops : List (String × Handler) := [("lex.escape", escape), ("lex.lit", lit), ("lex.doc", doc), ("lex.opdoc", opdoc)]
+/-- `lex.decode` (C04, decoding clause): the support crate's `json_with_diagnostics` must answer `Ok` only for a body that IS a
+JSON text (one value, white space around it) — the reference is Lean's own strict JSON parser; for the typed target
+`Pet { name: String }` (unknown members denied) the value must moreover be exactly such an object -/
+def decode : Handler := fun req => do
+  let inp ← field req "in"
+  let impl ← field req "impl"
+  let body := (fieldD inp "body" (Json.str "")).getStr?.toOption.getD ""
+  let typed := fieldD inp "ty" (Json.str "value") == Json.str "pet"
+  let parsed := (Json.parse body).toOption
+  let fits (j : Json) : Bool :=
+    if !typed then true
+    else match j with
+      | .obj kvs => (kvs.toList.map (·.1)) == ["name"] && (match j.getObjVal? "name" with | .ok (.str _) => true | _ => false)
+      | _ => false
+  let want : Option Json := match parsed with | some j => if fits j then some j else none | none => none
+  let model := match want with | some j => Json.mkObj [("ok", j)] | none => Json.mkObj [("err", Json.null)]
+  let got := (impl.getObjVal? "ok").toOption
+  let implNorm := match got with | some j => Json.mkObj [("ok", j)] | none => Json.mkObj [("err", Json.null)]
+  let judge :=
+    match got, want with
+    | some _, none => verdict false [] s!"a body that is not a JSON text of the declared shape is decoded as if it were: {body.take 80}"
+    | none, some _ => verdict false [] s!"a well-formed body of the declared shape is refused: {body.take 80}"
+    | _, _ => verdict true []
+  let branch := (if parsed.isSome then "json" else "not-json") ++ (if typed then "/typed" else "")
+  pure (Json.mkObj [("model", model), ("match", Json.bool (model == implNorm)), ("judge", judge), ("branch", Json.str branch)])
+
+def ops : List (String × Handler) := [("lex.escape", escape), ("lex.lit", lit), ("lex.doc", doc), ("lex.opdoc", opdoc), ("lex.decode", decode)]
 
 end Oas3.Driver.Lex
